@@ -81,6 +81,20 @@ class Ctx:
             self.bad(rule, construct, what, detail, key_detail=key_detail, loc=loc)
         return bool(cond)
 
+    def guard(self, fn, *args):
+        """Run one rule function; an unexpected shape that makes the rule itself fail is recorded as an undecided, required
+        obligation (-> exit 2 unless another rule reports a violation) instead of aborting the other rules."""
+        from .source import AnalysisError
+        try:
+            fn(self, *args)
+        except AnalysisError:
+            raise
+        except Exception as e:       # noqa: BLE001 - deliberately broad: any crash of a rule is "no longer decidable"
+            import traceback
+            tb = traceback.extract_tb(e.__traceback__)[-1]
+            self.unknown(fn.__name__.upper().replace("R", "R", 1), f"{fn.__module__.split('.')[-1]}.{fn.__name__}", "the rule can be evaluated on this tree",
+                         f"{type(e).__name__}: {e} (at {tb.filename.split('/')[-1]}:{tb.lineno})", required=True)
+
     def count(self, name, n=1):
         self.analysed[name] = self.analysed.get(name, 0) + n
 
